@@ -664,8 +664,11 @@ _dispatch_continuation_init_slow(dispatch_continuation_t dc,
 	pthread_priority_t pp = 0;
 
 	// balanced in d_block_async_invoke_and_release or d_block_wait
-	if (os_atomic_cmpxchg2o(dbpd, dbpd_queue, NULL, dq, relaxed)) {
-		_dispatch_retain_2(dq);
+	// The references must exist before the queue is published: a concurrent
+	// dispatch_block_wait() consumes them as soon as it sees the pointer
+	_dispatch_retain_2(dq);
+	if (!os_atomic_cmpxchg2o(dbpd, dbpd_queue, NULL, dq, relaxed)) {
+		_dispatch_release_2_no_dispose(dq);
 	}
 
 	if (dc_flags & DC_FLAG_CONSUME) {
@@ -1901,8 +1904,10 @@ _dispatch_sync_block_with_privdata(dispatch_queue_t dq, dispatch_block_t work,
 	ov = _dispatch_set_priority_and_voucher(p, v, 0);
 
 	// balanced in d_block_sync_invoke or d_block_wait
-	if (os_atomic_cmpxchg2o(dbpd, dbpd_queue, NULL, dq, relaxed)) {
-		_dispatch_retain_2(dq);
+	// (retained before it is published, see _dispatch_continuation_init_slow)
+	_dispatch_retain_2(dq);
+	if (!os_atomic_cmpxchg2o(dbpd, dbpd_queue, NULL, dq, relaxed)) {
+		_dispatch_release_2_no_dispose(dq);
 	}
 	if (dc_flags & DC_FLAG_BARRIER) {
 		_dispatch_barrier_sync_f(dq, work, _dispatch_block_sync_invoke,
@@ -2145,8 +2150,10 @@ _dispatch_async_and_wait_block_with_privdata(dispatch_queue_t dq,
 	}
 
 	// balanced in d_block_sync_invoke or d_block_wait
-	if (os_atomic_cmpxchg2o(dbpd, dbpd_queue, NULL, dq, relaxed)) {
-		_dispatch_retain_2(dq);
+	// (retained before it is published, see _dispatch_continuation_init_slow)
+	_dispatch_retain_2(dq);
+	if (!os_atomic_cmpxchg2o(dbpd, dbpd_queue, NULL, dq, relaxed)) {
+		_dispatch_release_2_no_dispose(dq);
 	}
 
 	dispatch_tid tid = _dispatch_tid_self();
